@@ -352,7 +352,7 @@ func limitsMain(args []string) int {
 			return nil
 		})
 	}()
-	err := workpool.Run(workpool.Options{Kind: "limits", Workers: *workers, Batch: 1, Env: env, CaseTimeout: 120 * time.Second,
+	err := workpool.Run(workpool.Options{Kind: "limits", Workers: *workers, Batch: 1, Env: env, CaseTimeout: 12 * time.Second,
 		OnResult: func(cl, rl []byte) {
 			var r limRes
 			if json.Unmarshal(rl, &r) != nil {
